@@ -235,17 +235,19 @@ package command
 
 // ---- the compile cache (C08): a hit returns what was stored under the key computed from this text; a miss returns
 // the fresh compilation of exactly this text, and only a successful compilation of this text is stored under that key.
-// (That the key is a function of the text alone, without collisions, is sha256/base64: assumed.)
-//@ def cacheInv() = forall k4 string :: in(k4, cacheKeys) ==> cacheOf[k4] != nil
+// The key is keyOf(text) = base64(sha256(text)), computed from exactly this text (the digest's input is pinned by the
+// contracts of hash.Hash in libs.contracts); that keyOf has no collisions is sha256: assumed there. Every entry sits
+// under the key of the text it was compiled from, so a hit under keyOf(script) was compiled from script.
+//@ def cacheInv() = forall k4 string :: in(k4, cacheKeys) ==> cacheOf[k4] != nil && k4 == keyOf(cachedSrc[k4])
 //@ func (*command.Compiler).Compile
 //@   requires c != nil // C08
 // (invariant of the cache: holds for the empty cache, and Compile, the only writer, re-establishes it)
 //@   assumes cacheInv()
 //@   ensures cacheInv()
 //@   ensures err == nil ==> ret0 != nil
-//@   ensures err == nil ==> (lastCompileOK && ret0 == lastCompiled && lastCompiledSrc == script) || (exists k5 string :: old(in(k5, cacheKeys)) && ret0 == old(cacheOf[k5])) // C08
+//@   ensures err == nil ==> (lastCompileOK && ret0 == lastCompiled && lastCompiledSrc == script) || (old(in(keyOf(script), cacheKeys)) && ret0 == old(cacheOf[keyOf(script)]) && old(cachedSrc[keyOf(script)]) == script) // C08
 //@   ensures forall k6 string :: in(k6, cacheKeys) && !old(in(k6, cacheKeys)) ==> cachedSrc[k6] == script && cacheOf[k6] == ret0 // C08
 //@   ensures forall k7 string :: old(in(k7, cacheKeys)) ==> in(k7, cacheKeys) && (cacheOf[k7] == old(cacheOf[k7]) || (cachedSrc[k7] == script && cacheOf[k7] == ret0)) // C08
-//@   modifies ghost lastCompiled, ghost lastCompiledSrc, ghost lastCompileOK, ghost cacheOf, ghost cachedSrc, ghost cacheKeys
+//@   modifies ghost lastCompiled, ghost lastCompiledSrc, ghost lastCompileOK, ghost cacheOf, ghost cachedSrc, ghost cacheKeys, ghost digestIn
 //@   nopanic
 //@   property C08
